@@ -202,6 +202,15 @@ func (c12) Run(c *Ctx, i int) CaseResult {
 			bad("L0.cache-concurrent", "the entry kept after concurrent misses is not the plan of the text", twinData[text], Canon(d))
 		}
 	}
+	if len(res.Fails) == 0 {
+		// one cached entry answering requests that differ in operation name and variable values
+		ts := reuseTemplatesFor()
+		for _, f := range ReuseCheck(c, c.Rand(i+82000000), ts[i%len(ts)], "L0.cache-twin") {
+			if f.Channel == "L0.cache-twin.cached-plan" || f.Channel == "harness" {
+				res.Fails = append(res.Fails, f)
+			}
+		}
+	}
 	res.Nontrivial = keyOnly > 0
 	res.Counters = map[string]int{"requests": len(hist), "key_only": keyOnly}
 	if i%13 == 0 {
